@@ -980,7 +980,10 @@ def translate():
     enums["__sme__"] = aasgen.SUBMODEL_ELEMENTS + ["SubmodelElement", "DataElement", "EventElement"]
     meta = dict(aasgen.META)
     meta["LangString"] = [("language", "str"), ("text", "str")]
-    return dict(tables=tables, classes=classes, parsers=parsers, enums=enums, meta=meta)
+    ctors = {}
+    for m, c in r.ctor.items():
+        ctors.setdefault(c, m.lstrip("_"))
+    return dict(tables=tables, classes=classes, parsers=parsers, enums=enums, meta=meta, ctors=ctors)
 
 
 def reference_reader_rules(r, ctor):
@@ -1015,6 +1018,9 @@ def emit(t):
     out.append("Definition json_tables : tables := [" + ";\n  ".join(f"({q(c)}, rules_{c})" for c in t["classes"]) + "].")
     out.append("Definition json_parsers : list (string * string) := [" +
                "; ".join(f"({q(a)}, {q(b or '')})" for a, b in t["parsers"]) + "].")
+    out.append("(* class -> name of its reader constructor method (without the leading underscore) *)")
+    out.append("Definition json_reader_ctors : list (string * string) := [" +
+               "; ".join(f"({q(c)}, {q(m)})" for c, m in sorted(t["ctors"].items())) + "].")
     out.append("")
     out.append("Definition json_meta : meta := [")
     rows = []
